@@ -13,8 +13,8 @@ C01 R01.5/R01.6, C04) on boundary values of the operand and compared with the va
 
 A tree with a node kind the evaluator does not know is undecided, never a violation."""
 import struct
-from .interp import Interp, Obj, View, _Ref, VarPlace
-from .lib_parse import TokenModel
+from .interp import Interp, Obj, View, Cell, _Ref, VarPlace
+from .lib_parse import TokenModel, OTHER
 from .lib_types import Types, SIZE, UNS, FPR, promote
 from .build import AnalysisBroken
 
@@ -27,8 +27,8 @@ class NotEvaluable(Exception):
 # name -> (declared type, bit-field width or None)
 INT_OPERANDS = [(t, t, None) for t in ('bool', 'char', 'uchar', 'short', 'ushort', 'int', 'uint', 'long', 'ulong', 'enum')]
 PTR_OPERAND = ('ptr', 'ptr', None)
-BITFIELDS = [('bitfield-unsigned:3', 'uint', 3), ('bitfield-int:3', 'int', 3), ('bitfield-bool:1', 'bool', 1), ('bitfield-ulong:40', 'ulong', 40),
-             ('bitfield-int:32', 'int', 32), ('bitfield-uchar:8', 'uchar', 8), ('bitfield-unsigned:31', 'uint', 31), ('bitfield-unsigned:32', 'uint', 32)]
+BITFIELDS = [('bitfield-unsigned-3', 'uint', 3), ('bitfield-int-3', 'int', 3), ('bitfield-bool-1', 'bool', 1), ('bitfield-ulong-40', 'ulong', 40),
+             ('bitfield-int-32', 'int', 32), ('bitfield-uchar-8', 'uchar', 8), ('bitfield-unsigned-31', 'uint', 31), ('bitfield-unsigned-32', 'uint', 32)]
 FP_OPERANDS = [('float', 'float', None), ('double', 'double', None)]
 
 
@@ -284,8 +284,17 @@ class Builder:
         cut = {p: h_leaf(p) for p in operand_parsers}
         cut['is_typename'] = lambda it, ctx, n, a: 0
         opaque = [f for f in ('postfix', 'primary', 'funcall', 'expr', 'struct_ref', 'error_tok', 'new_unique_name', 'get_ident', 'cast', 'unary') if f not in cut and f != fname]
-        tm = TokenModel(self.P, self.pu, [fname], extra_opaque=opaque, cut=cut, forever_limit=3)
+        def one_operator(it_, ctx, o, f, t):
+            # the token after the operator is not an operator of this level: exactly one operator is applied on every path
+            if o.tname == 'Token' and f == 'next':
+                nxt = Obj('Token', lazy=True, label=(o.label or 'tok') + '.next')
+                nxt.meta['spell'] = Cell([OTHER], nxt.label + '.spelling')
+                return nxt
+            return NotImplemented
+        tm = TokenModel(self.P, self.pu, [fname], extra_opaque=opaque, cut=cut, forever_limit=2, lazy_field=one_operator)
         tm.cfg['models'] = {'new_lvar': lambda it_, ctx, n, a: Obj('Obj', lazy=False, label=ctx.fresh('tmp'), fields={'ty': a[1], 'name': a[0], 'is_local': 1})}
+        if fname == 'postfix':
+            tm.keys = [k for k in tm.keys if k in ('++', '--', '<other>')]     # only the inc/dec tails of postfix() are followed
         tm.cfg['rec_limit'] = 16          # add_type recurses over the built tree
         tm.cfg['max_depth'] = 120
         it = tm.interp()
